@@ -7,4 +7,15 @@ def jobs(tier, ctx):
                         desc='move_object(item 0, %s) from any forest over 3 objects with any command/destructed flags; each init() callback replaces the graph by another arbitrary forest and may raise an error: forest invariant after, at every callback, and on the error path' % ('object %d' % dest if dest < 3 else 'no environment'),
                         inputs='parent pointers, flags, havoc forests and destruct flags for the first 2 callbacks, error choices',
                         assumptions=['callbacks = havoc to any forest state (later callbacks leave the graph alone); command sentences empty; 3 objects']))
+    out.append(dict(name='destruct_object', srcs=['@harness/C08/move.c', 'src/simulate.c'], stubs=BASE, defs=['DEST=1', 'MODE_DESTRUCT=1', 'NHAVOC=1', 'VMW_HAVE_SIMULATE=1'], unwind=5,
+                    unwindset=['destruct_object:3', 'move_object:2'], nobody_ok=['*'], targets=['destruct_object'], timeout=700, mem_gb=10,
+                    opt_witness=['destructed', 'destruct_with_move_or_destruct_callbacks', 'move_raised_error', 'end'],
+                    desc='destruct_object(object 0) from any forest over 3 objects; every move_or_destruct() callback of a content replaces the graph by another arbitrary forest (it may move object 0 itself) and may raise an error: afterwards the destructed object is in no inventory, holds nothing, is off the object list, and the forest invariant holds (also at every callback and on the error path)',
+                    inputs='parent pointers, flags, havoc forest and destruct flags for the first callback, error choices',
+                    assumptions=['the first callback = havoc to any forest state (later callbacks leave the graph alone); name hash, living names, heart beats, connections and sentences are contract stubs; not master / simul_efun object; 3 objects']))
+    out.append(dict(name='efun_move', srcs=['@harness/C08/efun_move.c'], stubs=['@world/world_base.c'], unwind=3, nobody_ok=['*'], targets=['f_move_object'], timeout=200, mem_gb=4,
+                    opt_witness=['efun_raised_error', 'destination_by_name'],
+                    desc='move_object() efun with the destination given as object or by name; resolving a name may load the destination, whose create() may destruct the caller: move_object() is never asked to move a destructed object',
+                    inputs='destination kind, lookup outcome, visibility, whether create() destructs the caller, caller state before',
+                    assumptions=['find_or_load_object = havoc (may destruct the caller, may fail); move_object itself is decided by move_object.destN']))
     return out
